@@ -10,16 +10,8 @@ from collections import OrderedDict
 from fractions import Fraction
 import json
 
-from lib import framework
-from lib.framework import Property, load_known
+from lib.framework import Property
 from .util import *
-
-# Work-around (framework wish, see notes/C15.md): the audit template of tools/lib/framework.py uses the private
-# `CollectAxioms.collect`, which Lean 4.33 does not export; `Lean.collectAxioms` is the public entry point.
-# A no-op once the template is repaired.
-framework.AUDIT_TMPL = (framework.AUDIT_TMPL
-                        .replace('let (_, s) := ((CollectAxioms.collect n).run env).run {}', 'let axs ← collectAxioms n')
-                        .replace('{s.axioms.toList}', '{axs.toList}'))
 
 POOL = ['A', 'B', 'C', 'D', 'E', 'F', 'G', 'H2O', 'H+', 'OH-', 'e-', 'a', 'Na+', 'Cl-', 'AB', 'Ab', 'O2', 'H2', 'Z', 'b2']
 ELEMS = [1, 6, 7, 8, 11, 17]
@@ -130,6 +122,34 @@ def failing_checks(rxns, keys):
     return bad
 
 
+def sp_merge(subs_a, subs_b):
+    """substances of a sum: a's keys in order, then b's new ones; on a common key b's object wins"""
+    want, order = {}, []
+    for k, v in list(subs_a) + list(subs_b):
+        if k not in want:
+            order.append(k)
+        want[k] = v
+    return [[k, want[k]] for k in order]
+
+
+def sp_used(subs, rxns):
+    """the substances (in their order) that occur in one of the reactions"""
+    return [[k, v] for k, v in subs if any(k in s_keys(r) for r in rxns)]
+
+
+def sp_concat(specs):
+    """[rxns, subs] of the sum and of the duplicates, by the definition of `concatenate`, for specs = [[rxns, subs], ...]"""
+    acc_r, acc_s = list(specs[0][0]), list(specs[0][1])
+    dup_r, dup_s = [], []
+    for rx, subs in specs[1:]:
+        cur = list(acc_r)
+        yes = [r for r in rx if not any(r[:4] == o[:4] for o in cur)]
+        no = [r for r in rx if any(r[:4] == o[:4] for o in cur)]
+        acc_r, acc_s = acc_r + yes, sp_merge(acc_s, sp_used(subs, yes))
+        dup_r, dup_s = dup_r + no, sp_merge(dup_s, sp_used(subs, no))
+    return [acc_r, acc_s], [dup_r, dup_s]
+
+
 def nullspace(rows, n):
     """basis of {x : rows x = 0} over Fractions"""
     m = [list(map(Fraction, r)) for r in rows]
@@ -234,9 +254,21 @@ def gen_rxn(rng, pool, named_p=0.3):
     return [reac, prod, ir, ip, param, name]
 
 
-def reverse_of(rng, rx):
+def reverse_of(rng, rx, extra_pool=()):
     reac, prod, ir, ip = [list(map(list, p)) for p in rx[:4]]
     nr, np_, nir, nip = prod, reac, ip, ir
+    used = set(s_keys(rx))
+    fresh = [k for k in extra_pool if k not in used]
+    if fresh and rng.random() < 0.3:                       # "reverse plus spectator": NOT a reverse
+        k = rng.choice(fresh)
+        m = rng.random()
+        if m < 0.5:                                        # catalysed back reaction
+            nr = nr + [[k, 1]]
+            np_ = np_ + [[k, 1]]
+        elif m < 0.75:
+            nr = nr + [[k, rng.randint(1, 2)]]
+        else:
+            np_ = np_ + [[k, rng.randint(1, 2)]]
     if nr and rng.random() < 0.3:                          # move one unit between active and inactive
         k, v = nr[0]
         if v >= 2 and all(k != kk for kk, _ in nir):
@@ -280,7 +312,7 @@ def gen_sys(rng, max_s=12, max_r=12, comps=None, unknown_p=0.05, dup_p=0.06, rev
             src = rng.choice(rxns)
             rx = [list(map(list, p)) for p in src[:4]] + [src[4] if rng.random() < 0.6 else 9, rng.choice([None, src[5]])]
         elif rxns and r < dup_p + rev_p:
-            rx = reverse_of(rng, rng.choice(rxns))
+            rx = reverse_of(rng, rng.choice(rxns), keys)
         else:
             pool_ = rng.choice(clusters) if clusters and rng.random() < 0.88 else [k for c in clusters for k in c]
             if rng.random() < unknown_p:
@@ -293,6 +325,30 @@ def gen_sys(rng, max_s=12, max_r=12, comps=None, unknown_p=0.05, dup_p=0.06, rev
     with_comp = rng.random() < 0.5 if comps is None else comps
     subs = [[k, [k, gen_comp(rng) if with_comp else None]] for k in order]
     return {'rxns': rxns, 'subs': subs}
+
+
+def gen_bridged_sys(rng):
+    """several provisional groups (seed reactions on disjoint key pairs, listed first) that later reactions bridge:
+    the bridges join EARLIER groups in the greedy pass, so the fusion loop has to merge transitively (a group that
+    was already compared with a smaller version of group i must be compared again after i absorbed another one)"""
+    m = rng.randint(3, 6)
+    keys = rng.sample(POOL, 2 * m)
+    seeds = [[[[keys[2 * i], 1]], [[keys[2 * i + 1], rng.randint(1, 2)]], [], [], None, None] for i in range(m)]
+    bridges = []
+    for _ in range(rng.randint(2, m + 1)):
+        a, b = rng.sample(range(m), 2)
+        bridges.append([[[keys[2 * a + rng.randint(0, 1)], 1]], [[keys[2 * b + rng.randint(0, 1)], 1]], [], [], rng.choice([None, 2]), None])
+    rng.shuffle(seeds)
+    rng.shuffle(bridges)
+    rxns = seeds + bridges
+    r = rng.random()
+    if r < 0.2:
+        rng.shuffle(rxns)
+    elif r < 0.3:
+        rxns.reverse()
+    order = keys + rng.sample([k for k in POOL if k not in keys], rng.randint(0, 2))
+    rng.shuffle(order)
+    return {'rxns': rxns, 'subs': [[k, [k, None]] for k in order]}
 
 
 def gen_pred(rng, spec):
@@ -357,6 +413,7 @@ class C15(Property):
     )
     anchors = [('chempy/reactionsystem.py', 'ReactionSystem.__init__'), ('chempy/reactionsystem.py', 'ReactionSystem.split'),
                ('chempy/reactionsystem.py', 'ReactionSystem.categorize_substances'),
+               ('chempy/reactionsystem.py', 'ReactionSystem._stoichs'),
                ('chempy/reactionsystem.py', 'ReactionSystem.sort_substances_inplace'),
                ('chempy/reactionsystem.py', 'ReactionSystem.check_duplicate'),
                ('chempy/reactionsystem.py', 'ReactionSystem.check_duplicate_names'),
@@ -377,16 +434,6 @@ class C15(Property):
                ('chempy/chemistry.py', 'Reaction.all_prod_stoich'), ('chempy/chemistry.py', 'Reaction._init_stoich'),
                ('chempy/chemistry.py', 'Substance.__eq__')]
 
-    _known_cache = None
-
-    def _known(self, key):
-        if self._known_cache is None:
-            try:
-                self._known_cache = set(k for (p, k) in load_known()[0] if p == self.pid)
-            except Exception:
-                self._known_cache = set()
-        return key in self._known_cache
-
     # ---------------------------------------------------------------- generation
     def generate(self, rng, n, tier):
         cases = []
@@ -396,11 +443,23 @@ class C15(Property):
                  + ['substance_index'] * 2 + ['varied'] * 2 + ['upper_bounds'] * 10 + ['history'] * 7)
         for _ in range(n):
             cases.append(self.gen_case(rng, rng.choice(kinds)))
+        for _ in range(max(2, n // 60)):                     # oracle-only: systems SHARING one substances OrderedDict
+            pool = rng.sample(POOL, 7)
+            a = gen_sys(rng, 6, 4, pool=pool, unknown_p=0, comps=False)
+            a2 = gen_sys(rng, 6, 4, pool=pool, unknown_p=0, comps=False)
+            have = [k for k, _ in a['subs']]
+            for k, v in a2['subs']:
+                if k not in have:
+                    a['subs'].append([k, v])
+                    have.append(k)
+            others = [gen_sys(rng, 6, 4, pool=rng.sample(POOL, 7), unknown_p=0, comps=False) for _ in range(rng.randint(1, 2))]
+            cases.append({'oracle_only': 'concat_shared', 'subs': a['subs'], 'rxns_a': a['rxns'], 'rxns_a2': a2['rxns'],
+                          'others': others, 'pred': gen_pred(rng, a)})
         return cases
 
     def gen_case(self, rng, kind):
         if kind == 'split':
-            spec = gen_sys(rng)
+            spec = gen_bridged_sys(rng) if rng.random() < 0.35 else gen_sys(rng)
             perm = list(range(len(spec['rxns'])))
             rng.shuffle(perm)
             return {'op': 'split', 'sys': spec, 'checks': gen_checks(rng) if rng.random() < 0.3 else [], 'perm': perm}
@@ -523,6 +582,8 @@ class C15(Property):
         if kind == 'history':
             pool = rng.sample(POOL, 8)
             store = [gen_sys(rng, 7, 5, pool=pool, unknown_p=0) for _ in range(rng.randint(1, 3))]
+            if rng.random() < 0.3:
+                store[0] = gen_bridged_sys(rng)
             sizes = [len(s['rxns']) for s in store]
             ops = []
             n_store = len(store)
@@ -543,7 +604,7 @@ class C15(Property):
                 else:
                     idx = rng.sample(range(n_store), min(n_store, rng.randint(1, 3)))
                     ops.append(['concat', idx])
-                    n_store += 1
+                    n_store += 1 if len(idx) == 1 else 2
             if rng.random() < 0.05:
                 ops.append(['add', 0, 99])
             return {'op': 'history', 'store': store, 'ops': ops}
@@ -673,7 +734,8 @@ class C15(Property):
                         store.extend(store[o[1]].split(checks=()))
                     elif o[0] == 'concat':
                         a, b = ReactionSystem.concatenate([store[k] for k in o[1]])
-                        store[o[1][0]] = a
+                        if len(o[1]) != 1:                  # a one-element list returns store[o[1][0]] itself
+                            store.append(a)
                         store.append(b)
                 return dumps([show_sys(s) for s in store])
         except Exception as e:
@@ -694,6 +756,8 @@ class C15(Property):
     # ---------------------------------------------------------------- the property on the real code
     def oracle(self, c):
         from chempy import ReactionSystem
+        if c.get('oracle_only') == 'concat_shared':
+            return self._oracle_concat_shared(c)
         op = c['op']
         if op == 'split':
             return self._oracle_split(c)
@@ -707,26 +771,20 @@ class C15(Property):
             except ValueError as e:
                 return None if bad else 'categorize_substances raised %s on a system passing the requested checks' % e
             except IndexError:
-                # numpy: net[:, i] on the shape-(0,) matrix of a system without reactions
-                if not spec['rxns'] and keys and not bad:
-                    if self._known('categorize-no-reactions'):
-                        return 'KNOWN categorize_substances raises IndexError for a system without reactions'
-                    return None
-                return 'categorize_substances raised IndexError'
+                # before the fix "stoichiometry matrices of a system without reactions are two-dimensional" numpy raised here
+                # (net[:, i] on a shape-(0,) array) for a system without reactions
+                return 'categorize_substances raised IndexError (%d reactions, %d substances)' % (len(spec['rxns']), len(keys))
             if bad:
                 return 'categorize_substances accepted a system failing ' + ','.join(sorted(bad))
             for k in keys:
                 nets = [s_net(rx, k) for rx in spec['rxns']]
                 pos, neg = any(n > 0 for n in nets), any(n < 0 for n in nets)
                 present = any(s_all_reac(rx, k) > 0 or s_all_prod(rx, k) > 0 for rx in spec['rxns'])
-                inkeys = any(k in s_keys(rx) for rx in spec['rxns'])
                 want = ('accumulated' if pos and not neg else 'depleted' if neg and not pos else None if pos and neg
                         else 'unaffected' if present else 'nonparticipating')
                 got = [nm for nm in cat if k in cat[nm]]
                 if got != ([want] if want else []):
                     return 'substance %s categorised %s, definition says %s (net effects %s)' % (k, got, want, nets)
-                if want == 'nonparticipating' and inkeys and self._known('zero-coefficient-participation'):
-                    return 'KNOWN zero-coefficient: %s is a key of a reaction (participation) but nonparticipating' % k
             extra = set().union(*cat.values()) - set(keys)
             if extra:
                 return 'categories contain unknown keys %s' % sorted(extra)
@@ -906,36 +964,62 @@ class C15(Property):
             return None
         systems = [mk_sys(s)[0] for s in c['systems']]
         a, b = ReactionSystem.concatenate(systems)
-        acc = list(c['systems'][0]['rxns'])
-        dup = []
-        for s in c['systems'][1:]:
-            cur = list(acc)
-            for rx in s['rxns']:
-                if any(rx[:4] == o[:4] for o in cur):
-                    dup.append(rx)
-                else:
-                    acc.append(rx)
-        if [show_rxn(r) for r in a.rxns] != acc:
+        specs = [[s['rxns'], s['subs']] for s in c['systems']]
+        want_a, want_b = sp_concat(specs)
+        if show_sys(a)[0] != want_a[0]:
             return 'concatenate: the sum does not hold the first system plus the stoichiometrically new reactions'
-        if [show_rxn(r) for r in b.rxns] != dup:
+        if show_sys(b)[0] != want_b[0]:
             return 'concatenate: the duplicates system does not hold exactly the skipped reactions'
-        used = set(k for rx in acc for k in s_keys(rx)) | set(k for k, _ in c['systems'][0]['subs'])
-        if not set(a.substances) <= used | set(k for s in c['systems'] for k, _ in s['subs']):
-            return 'concatenate: unexpected substances'
-        for rx in acc:
-            for k in s_keys(rx):
-                if k not in a.substances:
-                    return 'concatenate: substance %s of a kept reaction is missing from the sum' % k
-        if a is systems[0] and len(c['systems']) > 1 and self._known('concatenate-mutates-first-argument'):
-            if show_sys(a) != [c['systems'][0]['rxns'], c['systems'][0]['subs']]:
-                return 'KNOWN concatenate mutated its first argument'
+        if show_sys(a)[1] != want_a[1] or show_sys(b)[1] != want_b[1]:
+            return 'concatenate: substances of the results are %s / %s, expected %s / %s' % (
+                list(a.substances), list(b.substances), [k for k, _ in want_a[1]], [k for k, _ in want_b[1]])
+        for i, (rs, sp) in enumerate(zip(systems, specs)):
+            if show_sys(rs) != sp:
+                return 'concatenate modified its argument %d: now %d reactions, substances %s' % (i, rs.nr, list(rs.substances))
+        if (a is systems[0]) != (len(systems) == 1):
+            return 'concatenate: the sum %s its first argument for %d systems' % ('is' if a is systems[0] else 'is not', len(systems))
+        if any(b is rs for rs in systems) or (len(systems) > 1 and any(a is rs for rs in systems)):
+            return 'concatenate returned one of its arguments'
+        return None
+
+    def _oracle_concat_shared(self, c):
+        """two systems built on ONE OrderedDict; concatenate([a] + others) must leave a, a2 and the dict as built, and later
+        split / subset / add / categorize on them must answer for the systems as built"""
+        from chempy import ReactionSystem
+        od = OrderedDict((k, mk_subst(v)) for k, v in c['subs'])
+        ra, ra2 = [mk_rxn(r) for r in c['rxns_a']], [mk_rxn(r) for r in c['rxns_a2']]
+        a = ReactionSystem(ra, od, checks=())
+        a2 = ReactionSystem(ra2, od, checks=())
+        others = [mk_sys(s)[0] for s in c['others']]
+        ReactionSystem.concatenate([a] + others)
+        keys = [k for k, _ in c['subs']]
+        if list(od) != keys:
+            return 'concatenate changed the substances dict its first argument was built on: %s -> %s' % (keys, list(od))
+        for nm, rs, rx in (('a', a, c['rxns_a']), ('a2', a2, c['rxns_a2'])):
+            if show_sys(rs) != [rx, c['subs']]:
+                return 'after concatenate([a, ...]) system %s has %d reactions / substances %s, built with %d / %s' % (
+                    nm, rs.nr, list(rs.substances), len(rx), keys)
+            ksets = [s_keys(r) for r in rx]
+            got = sorted(sorted(dumps(show_rxn(r)) for r in p.rxns) for p in rs.split(checks=()))
+            want = sorted(sorted(dumps(rx[i]) for i in g) for g in components(ksets))
+            if got != want:
+                return 'after concatenate, %s.split() does not give the components of %s as built' % (nm, nm)
+            y, n = rs.subset(mk_pred(c['pred']))
+            if [show_rxn(r) for r in y.rxns] != [r for r in rx if eval_pred(c['pred'], r)]:
+                return 'after concatenate, %s.subset(pred) does not filter the reactions of %s as built' % (nm, nm)
+            if rx:
+                cat = rs.categorize_substances(checks=())
+                if set().union(*cat.values()) - set(keys):
+                    return 'after concatenate, %s.categorize_substances() lists substances %s was not built with' % (nm, nm)
+        s = a + a2
+        if [show_rxn(r) for r in s.rxns] != c['rxns_a'] + c['rxns_a2'] or list(s.substances) != keys:
+            return 'after concatenate, a + a2 is not the sum of the systems as built'
         return None
 
     def _oracle_make(self, c):
         from chempy import ReactionSystem
         a = c['substances']
         rx = c['rxns']
-        charwise = False
         if a is None:
             keys, dflt = sorted(set(k for r in rx for k in s_keys(r))), True
         elif a[0] == 'names':
@@ -947,7 +1031,6 @@ class C15(Property):
                 keys = list(OrderedDict.fromkeys(a[1].split()))
             else:
                 keys = list(OrderedDict.fromkeys(a[1]))      # what the code does: character-wise
-                charwise = len(a[1]) > 1
             dflt = False
         elif a[0] == 'substs':
             keys, dflt = list(OrderedDict.fromkeys(s[0] for s in a[1])), False
@@ -975,8 +1058,6 @@ class C15(Property):
             return 'substance order %s, expected %s' % ([k for k, _ in got[1]], want)
         if got[0] != rx:
             return 'constructor changed the reactions'
-        if charwise and self._known('ctor-str-charwise'):
-            return 'KNOWN substances=%r (no blank) was split into characters %s' % (a[1], want)
         return None
 
     def _oracle_arrays(self, c):
@@ -1061,11 +1142,8 @@ class C15(Property):
         if len(b) != len(subs):
             return 'wrong number of bounds'
         if skip != (0,):
-            # documented parameter, but only honoured by the first loop: bounds of substances containing a skipped element become 0
-            if self._known('upper-bounds-skip-keys'):
-                for (_, s), bb, x in zip(subs, b, init):
-                    if x > bb:
-                        return 'KNOWN skip_keys=%s: bound %r of %s below its own initial concentration %s' % (skip, bb, s[0], x)
+            # outside the property's quantifier (default skip_keys only); the parameter is honoured by the first loop only
+            # (see upper_bound_skip_keys_defect_witness and notes/C15.md) — correspondence still covers it
             return None
         comps = [dict((k, v) for k, v in s[1] if k != 0) for _, s in subs]
         els = sorted(set(k for cp in comps for k in cp))
@@ -1108,61 +1186,68 @@ class C15(Property):
         return None
 
     def _oracle_history(self, c):
-        """invariants along a history: every system built by add/subset/split holds exactly the reactions its definition says"""
+        """the history replayed twice: on the real objects and, by the definitions alone, on plain specs [rxns, subs]
+        (own components / predicate / sum / concatenate code); after EVERY operation every system of the store — in
+        particular the operands — must print as its spec. split parts are matched up to the order of parts and of the
+        reactions inside a part (the definition fixes neither)."""
         from chempy import ReactionSystem
         store = [mk_sys(s)[0] for s in c['store']]
-        for o in c['ops']:
+        specs = [[list(s['rxns']), list(s['subs'])] for s in c['store']]
+        for step, o in enumerate(c['ops']):
             try:
                 if o[0] == 'add':
-                    a, b = store[o[1]], store[o[2]]
-                    s = a + b
-                    if [id(r) for r in s.rxns] != [id(r) for r in a.rxns] + [id(r) for r in b.rxns]:
-                        return 'history: sum does not hold the reactions of both operands'
-                    if list(s.substances) != list(OrderedDict.fromkeys(list(a.substances) + list(b.substances))):
-                        return 'history: substances of a sum'
-                    store.append(s)
+                    store.append(store[o[1]] + store[o[2]])
+                    specs.append([specs[o[1]][0] + specs[o[2]][0], sp_merge(specs[o[1]][1], specs[o[2]][1])])
                 elif o[0] == 'iadd':
-                    a, b = store[o[1]], store[o[2]]
-                    before = [id(r) for r in a.rxns]
-                    other = [id(r) for r in b.rxns]
-                    keys = list(OrderedDict.fromkeys(list(a.substances) + list(b.substances)))
-                    a += b
-                    if [id(r) for r in a.rxns] != before + other or list(a.substances) != keys:
-                        return 'history: += does not hold the reactions / substances of both operands'
+                    a = store[o[1]]
+                    a += store[o[2]]
+                    store[o[1]] = a
+                    specs[o[1]] = [specs[o[1]][0] + specs[o[2]][0], sp_merge(specs[o[1]][1], specs[o[2]][1])]
                 elif o[0] == 'subset':
-                    a = store[o[1]]
-                    y, n = a.subset(mk_pred(o[2]))
-                    p = mk_pred(o[2])
-                    if [id(r) for r in y.rxns] != [id(r) for r in a.rxns if p(r)] or [id(r) for r in n.rxns] != [id(r) for r in a.rxns if not p(r)]:
-                        return 'history: subset halves'
-                    store.extend([y, n])
+                    store.extend(store[o[1]].subset(mk_pred(o[2])))
+                    rx, subs = specs[o[1]]
+                    yes = [r for r in rx if eval_pred(o[2], r)]
+                    no = [r for r in rx if not eval_pred(o[2], r)]
+                    specs.extend([[yes, sp_used(subs, yes)], [no, sp_used(subs, no)]])
                 elif o[0] == 'split':
-                    a = store[o[1]]
-                    parts = a.split(checks=())
-                    ksets = [s_keys(show_rxn(r)) for r in a.rxns]
-                    pos = {}
-                    for i, r in enumerate(a.rxns):
-                        pos.setdefault(id(r), []).append(i)
-                    # a history can hold the same Reaction object twice (s + s): compare key sets of the groups instead of indices
-                    want = components(ksets)
-                    want_k = sorted(sorted(set(k for i in g for k in ksets[i])) for g in want)
-                    got_k = sorted(sorted(set(k for r in p.rxns for k in s_keys(show_rxn(r)))) for p in parts)
-                    if sum(p.nr for p in parts) != a.nr or want_k != got_k:
-                        return 'history: split parts %s, components %s' % (got_k, want_k)
-                    for x in range(len(parts)):
-                        for y in range(x + 1, len(parts)):
-                            if set(parts[x].substances) & set(parts[y].substances):
-                                return 'history: split parts share substances'
+                    parts = store[o[1]].split(checks=())
+                    rx, subs = specs[o[1]]
+                    ksets = [s_keys(r) for r in rx]
+                    want = {}
+                    for g in components(ksets):
+                        key = dumps(sorted(dumps(rx[i]) for i in g))
+                        want[key] = want.get(key, 0) + 1
+                    for p in parts:
+                        prx = [show_rxn(r) for r in p.rxns]
+                        key = dumps(sorted(dumps(r) for r in prx))
+                        if want.get(key, 0) == 0:
+                            return 'history step %d: split part %s is not a connected component of the system as built' % (step, [str(r) for r in p.rxns])
+                        want[key] -= 1
+                        specs.append([prx, sp_used(subs, prx)])
+                    if any(want.values()):
+                        return 'history step %d: split lost a connected component' % step
                     store.extend(parts)
                 elif o[0] == 'concat':
                     a, b = ReactionSystem.concatenate([store[k] for k in o[1]])
-                    store[o[1][0]] = a
+                    wa, wb = sp_concat([specs[k] for k in o[1]])
+                    if (a is store[o[1][0]]) != (len(o[1]) == 1):
+                        return 'history step %d: concatenate %s its first argument' % (step, 'returned' if len(o[1]) != 1 else 'did not return')
+                    if len(o[1]) != 1:
+                        store.append(a)
+                        specs.append(wa)
                     store.append(b)
-            except IndexError:
+                    specs.append(wb)
+            except (IndexError, StopIteration):
                 return None
+            for i, (rs, sp) in enumerate(zip(store, specs)):
+                if show_sys(rs) != sp:
+                    return ('history step %d (%s): system %d holds %d reactions / substances %s, the definitions applied to the systems '
+                            'as built give %d / %s' % (step, o[0], i, rs.nr, list(rs.substances), len(sp[0]), [k for k, _ in sp[1]]))
         return None
 
     def classify(self, c):
+        if 'op' not in c:
+            return 'oracle-only:' + str(c.get('oracle_only'))
         op = c['op']
         if op == 'split':
             rx = c['sys']['rxns']
@@ -1175,23 +1260,9 @@ class C15(Property):
         return op
 
     def nontrivial(self, c):
-        op = c['op']
         if 'sys' in c:
             return bool(c['sys']['rxns'] or c['sys']['subs'])
         return True
-
-    def known_key(self, c, f):
-        if isinstance(f, str) and f.startswith('KNOWN zero-coefficient'):
-            return 'zero-coefficient-participation'
-        if isinstance(f, str) and f.startswith('KNOWN concatenate'):
-            return 'concatenate-mutates-first-argument'
-        if isinstance(f, str) and f.startswith('KNOWN substances='):
-            return 'ctor-str-charwise'
-        if isinstance(f, str) and f.startswith('KNOWN categorize_substances raises IndexError'):
-            return 'categorize-no-reactions'
-        if isinstance(f, str) and f.startswith('KNOWN skip_keys'):
-            return 'upper-bounds-skip-keys'
-        return None
 
     def shrink(self, case, still_fails):
         """drop reactions / substances one at a time while the oracle keeps failing"""
